@@ -320,6 +320,43 @@ fn verify<const N: usize>(b: &Bitset<N>, model: &[bool], salt: usize, rep: &mut 
         });
     }
 
+    // the same iterator through the standard adaptors, also after it has been partly consumed: what is left must
+    // always be the remaining ascending indices
+    {
+        let k = if want_idx.is_empty() { 0 } else { salt % (want_idx.len() + 1) };
+        let mut it = lib!(b.iter_bits());
+        let mut consumed: Vec<usize> = Vec::new();
+        for _ in 0..k {
+            if let Some(x) = lib!(it.next()) {
+                consumed.push(x);
+            }
+        }
+        let rest_count = lib!(it.count());
+        let fresh_count = lib!(b.iter_bits().count());
+        let last = lib!(b.iter_bits().last());
+        let nth = lib!(b.iter_bits().nth(k));
+        let skipped = lib!(b.iter_bits().skip(k).take(bits + 2).count());
+        // (nothing is demanded after the iterator has returned None: it is not a FusedIterator)
+        let want_rest = want_idx.len() - k.min(want_idx.len());
+        rep.inc("iterator_adaptor_checks");
+        if consumed[..] != want_idx[..k.min(want_idx.len())]
+            || rest_count != want_rest
+            || fresh_count != want_idx.len()
+            || last != want_idx.last().cloned()
+            || nth != want_idx.get(k).cloned()
+            || skipped != want_rest
+        {
+            fails.push(Fail {
+                check: "iter_bits",
+                got: format!(
+                    "after {} next() calls: consumed {}, count() of the rest {}, fresh count() {}, last() {:?}, nth({}) {:?}, skip({}).count() {}",
+                    k, short(&consumed), rest_count, fresh_count, last, k, nth, k, skipped
+                ),
+                want: format!("rest {}, total {}, last {:?}, nth {:?}", want_rest, want_idx.len(), want_idx.last(), want_idx.get(k)),
+            });
+        }
+    }
+
     // Display / Debug
     let want_s = model_string(model);
     let got_s = lib!(format!("{}", b));
